@@ -56,6 +56,8 @@ func main() {
 			code = cmdList(cfg)
 		case "loops":
 			code = cmdLoops(cfg, *fnFilter)
+		case "funcs":
+			code = cmdFuncs(cfg, *fnFilter)
 		default:
 			usage()
 		}
@@ -229,6 +231,28 @@ func cmdLoops(cfg Config, filter string) int {
 		for _, it := range items {
 			fmt.Printf("   loop %d: %s\n", it.ord, it.line)
 		}
+	}
+	return 0
+}
+
+// cmdFuncs lists the keys of the functions (and closures) whose key contains the filter, with the
+// source line they start on - closures are numbered by go/ssa in source order.
+func cmdFuncs(cfg Config, filter string) int {
+	p, err := loadProgram(cfg.Repo, cfg.Specs)
+	if err != nil {
+		fmt.Fprintln(os.Stderr, err)
+		return 2
+	}
+	var keys []string
+	for k := range p.funcs {
+		if strings.Contains(k, filter) {
+			keys = append(keys, k)
+		}
+	}
+	sort.Strings(keys)
+	for _, k := range keys {
+		fn := p.funcs[k]
+		fmt.Printf("%-60s %s %s\n", k, p.posString(fn.Pos()), strings.TrimSpace(p.sourceLine(fn.Pos())))
 	}
 	return 0
 }
